@@ -542,7 +542,11 @@ impl Plan {
                     let quick_ns = if is_text { 14 } else { 6 };
                     let ns = if thorough && (quick_names.contains(&d.name) || (d.equiv_of.is_none() && i >= n_corpus && is_text)) { 255 } else { quick_ns };
                     trunc.push(Row { doc: i, layer, mode, n: len, n_sub: ns, cuts: None });
-                    subst.push(Row { doc: i, layer, mode, n: len * ns, n_sub: ns, cuts: None });
+                    // (the async readers of the data formats: truncations, fields, numerals, multibyte — not the
+                    // substitution stage, which already fills the thorough budget)
+                    if !(mode == Mode::Async && !d.format.is_index()) {
+                        subst.push(Row { doc: i, layer, mode, n: len * ns, n_sub: ns, cuts: None });
+                    }
                     let nf = layer_fields(d, layer).len() as u64;
                     // quick: the field stage skips the third CRAM document (543+ fields x 40 values, ~1 ms per case)
                     let skip_fields = !thorough && d.name == "cram-paired-rps3";
